@@ -100,6 +100,7 @@ def check(case):
     if "big" in case["g"]:
         from . import c18
         case = dict(case, g=c18.big_graph(case["g"]["big"]))
+    case = common.expanded(case)
     kw, triples = common.base_kwargs(case)
     cfg = case["cfg"]
     inst_prop = case["g"]["inst_prop"]
@@ -279,3 +280,13 @@ def check(case):
     if kn:
         return known(kn, "", labels, nt)
     return ok(labels, nt)
+
+
+def enumerate_cases(tier):
+    """scale family: constraints within 1/n of 100 % on large classes (a rounded or tolerant comparison shows only there)"""
+    sizes = [(250, 1, 1), (10001, 1, 1)] if tier == "quick" else [(250, 1, 1), (1000, 1, 2), (10001, 1, 1), (20001, 2, 1)]
+    base = {"all_instances_are_compliant_mode": False, "keep_less_specific": True, "discard_useless_constraints_with_positive_closure": True,
+            "allow_opt_cardinality": True, "disable_exact_cardinality": False, "inverse_paths": False, "instances_report_mode": "mixed"}
+    for sc in sizes:
+        for opt, val in (("all_instances_are_compliant_mode", None), ("decimals", 2), ("decimals", 0), ("instances_report_mode", "ratio")):
+            yield {"g": {"scale": list(sc)}, "cfg": dict(base), "target": {"mode": "all"}, "thr": 0, "option": opt, "value": val}
